@@ -41,6 +41,9 @@ def run(ctx):
                  ('R-UNTOUCHED', 'every variable is stored; only named dimensions are processed'),
                  ('R-WRAPPER', 'the IOAPI wrapper delegates to the base method with *args, **kwds')):
         ctx.rule(r, d)
+    from .. import lints as _l
+    ctx.rule('R-FUZZYDIM', "reduce_dim: a request for dimension D is extended only to the companion dimensions named 'D<digits>'")
+    ctx.floor('companion conditions judged by R-FUZZYDIM', _l.fuzzy_companions(ctx, 'R-FUZZYDIM', 'core/_functions.py', 'reduce_dim'), 1)
     mod = ctx.src.mod(RP)
     fn = mod.func(Q)
     where = 'src/PseudoNetCDF/%s %s' % (RP, Q)
